@@ -113,6 +113,7 @@ pub fn c15_find_node(nd: &mut Nondet) {
     // run is a renaming of one with ordered distances); the target key is 0 so distance == key.
     let mut peers: Vec<KademliaPeer> = Vec::new();
     let mut ids: Vec<PeerId> = Vec::new();
+    let mut dists: Vec<u8> = Vec::new();
     let mut prev = 0u8;
     for _ in 0..C15_PEERS {
         let id = nd.peer_id("peer");
@@ -121,18 +122,23 @@ pub fn c15_find_node(nd: &mut Nondet) {
         assume(d > prev);
         prev = d;
         ids.push(id);
+        dists.push(d);
         peers.push(KademliaPeer::new_verif(id, key_bytes(d), ConnectionType::NotConnected));
     }
     let local_is_known = nd.bool("local_in_network");
     if !local_is_known { for id in ids.iter() { assume(*id != local); } }
-    let replication = 1 + nd.choose("replication", 2) as usize;
-    let parallelism = 1 + nd.choose("parallelism", 2) as usize;
+    // symbolic (not forked) configuration: the solver splits only where the code compares against them
+    let replication = nd.usize("replication");
+    assume(replication >= 1 && replication <= 2);
+    let parallelism = nd.usize("parallelism");
+    assume(parallelism >= 1 && parallelism <= 2);
     let target = Key::from_bytes_verif(key_bytes(0), nd.peer_id("target"));
     let config = FindNodeConfig { local_peer_id: local, replication_factor: replication, parallelism_factor: parallelism, query: QueryId(0), target };
     // seeds: non-empty subset, never the local node (the routing table never stores it)
     let mut seeds = VecDeque::new();
+    let mut learned = [false; C15_PEERS];
     for i in 0..C15_PEERS {
-        if nd.bool("seed") && ids[i] != local { seeds.push_back(peers[i].clone()); }
+        if nd.bool("seed") && ids[i] != local { seeds.push_back(peers[i].clone()); learned[i] = true; }
     }
     let mut ctx = FindNodeContext::new(config, seeds);
 
@@ -157,6 +163,21 @@ pub fn c15_find_node(nd: &mut Nondet) {
                 Some(QueryAction::QuerySucceeded { .. }) => {
                     cover("c15.succeeded");
                     check("c15.success-has-responder", !responded.is_empty());
+                    // reported peers: answered, at most `replication` many, and nothing closer was left unvisited
+                    let reported: Vec<PeerId> = ctx.responses.values().map(|p| p.peer_id_verif()).collect();
+                    check("c15.reports-at-most-replication-factor", reported.len() <= replication);
+                    check("c15.reports-only-peers-that-answered", reported.iter().all(|p| responded.contains(p)));
+                    let dist_of = |p: &PeerId| -> u8 { let i = ids.iter().position(|q| q == p).expect("known peer"); dists[i] };
+                    let furthest = reported.iter().map(|p| dist_of(p)).max().unwrap_or(0);
+                    for (i, known) in learned.iter().enumerate() {
+                        if !*known || ids[i] == local { continue; }
+                        let must_visit = reported.len() < replication || dists[i] < furthest;
+                        if must_visit { check("c15.every-closer-learned-peer-was-contacted", contacted.contains(&ids[i])); }
+                    }
+                    // the reported set is the `replication` closest responders
+                    let mut closer_responders = 0;
+                    for r in responded.iter() { if !reported.contains(r) && dist_of(r) < furthest { closer_responders += 1; } }
+                    check("c15.reported-are-the-closest-responders", closer_responders == 0);
                     return;
                 }
                 Some(QueryAction::QueryFailed { .. }) => {
@@ -180,7 +201,7 @@ pub fn c15_find_node(nd: &mut Nondet) {
                 if nd.bool("replies") {
                     // lying peers: any subset of the network, possibly including the local node
                     let mut advertised = Vec::new();
-                    for i in 0..C15_PEERS { if nd.bool("advertise") { advertised.push(peers[i].clone()); } }
+                    for i in 0..C15_PEERS { if nd.bool("advertise") { advertised.push(peers[i].clone()); learned[i] = true; } }
                     responded.push(who);
                     ctx.register_response(who, advertised);
                     cover("c15.response");
@@ -538,6 +559,453 @@ pub fn c19_multistream_decode(nd: &mut Nondet) {
             match Message::decode(out.freeze()) {
                 Ok(again) => check("c19.decode-encode-decode-is-stable", again == message),
                 Err(_) => check("c19.own-encoding-must-decode", false),
+            }
+        }
+    }
+}
+
+// ------------------------------------------------------------------------------------------ C05/C06 k-step
+use std::net::Ipv4Addr;
+use multiaddr::Multiaddr;
+
+fn same_ids(a: &[ConnectionId], b: &[ConnectionId]) -> bool { a.len() == b.len() && a.iter().all(|x| b.contains(x)) }
+
+const NPEERS: usize = 2;
+
+/// transport-side ledger of the scripted environment
+struct TransportWorld {
+    nd: *mut Nondet,
+    calls: Vec<TransportCall>,
+}
+
+#[derive(Clone)]
+struct Attempt { id: ConnectionId, peer: usize, address: Option<Multiaddr>, reported: u8 }
+#[derive(Clone, Copy, PartialEq)]
+struct LiveConn { id: ConnectionId, peer: usize, inbound: bool }
+
+fn peer_address(i: usize, peer: PeerId) -> Multiaddr {
+    Multiaddr::empty().with(Protocol::Ip4(Ipv4Addr::new(10, 0, 0, i as u8 + 1))).with(Protocol::Tcp(4000)).with(Protocol::P2p(peer.into()))
+}
+
+fn remove_attempt(list: &mut Vec<Attempt>, id: ConnectionId) -> Option<Attempt> {
+    let pos = list.iter().position(|a| a.id == id)?;
+    Some(list.remove(pos))
+}
+
+/// C05 + C06: every bounded schedule of dial requests and transport events from a fresh manager, against a
+/// ledger of attempts, live connections and reported outcomes.
+pub fn c05_manager_steps(nd: &mut Nondet) {
+    let max_in = match nd.choose("max_in", 3) { 0 => None, 1 => Some(0usize), _ => Some(1usize) };
+    let max_out = match nd.choose("max_out", 3) { 0 => None, 1 => Some(1usize), _ => Some(2usize) };
+    let mut manager = TransportManagerBuilder::new()
+        .with_connection_limits_config(ConnectionLimitsConfig::default().max_incoming_connections(max_in).max_outgoing_connections(max_out))
+        .build();
+    let mut world = TransportWorld { nd: nd as *mut Nondet, calls: Vec::new() };
+    let wp = &mut world as *mut TransportWorld as usize;
+    hooks::register_scripted_tcp(&mut manager, Box::new(move |call: TransportCall| {
+        let world = unsafe { &mut *(wp as *mut TransportWorld) };
+        world.calls.push(call);
+        true
+    }));
+    let local = hooks::local_peer_id(&manager);
+    let mut peers: Vec<PeerId> = Vec::new();
+    for i in 0..NPEERS {
+        let p = nd.peer_id_fixed(i as u8 + 1);
+        assume(p != local);
+        hooks::add_address(&mut manager, p, peer_address(i, p), 0);
+        peers.push(p);
+    }
+
+    let mut raw_open: Vec<Attempt> = Vec::new();    // open() called, no ConnectionOpened/OpenFailure yet
+    let mut dialing: Vec<Attempt> = Vec::new();     // dial()/negotiate() called, no Established/DialFailure yet
+    let mut live: Vec<LiveConn> = Vec::new();       // accepted and not closed
+    let mut concluded_without_report = 0usize;
+
+    let steps = param("steps", 3);
+    for _ in 0..steps {
+        world.calls.clear();
+        match nd.choose("event", 6) {
+            0 => {
+                let i = nd.choose("peer", NPEERS as u64) as usize;
+                let before = (raw_open.len(), dialing.len());
+                let had_capacity = match max_out { None => true, Some(m) => hooks::counted(&manager).1 < m };
+                let dialable = hooks::can_dial_now(&manager, &peers[i]);
+                match hooks::dial_now(&mut manager, peers[i]) {
+                    None => check("c05.dial-never-suspends", false),
+                    Some(true) => {
+                        cover("dial.ok");
+                        let opened = world.calls.iter().filter(|c| matches!(c, TransportCall::Open(_))).count();
+                        if dialable {
+                            check("c05.accepted-dial-of-idle-peer-makes-an-attempt", opened == 1);
+                        } else {
+                            check("c05.dial-in-progress-makes-no-second-attempt", opened == 0);
+                        }
+                        check("c06.dial-respects-outbound-capacity", had_capacity);
+                    }
+                    Some(false) => {
+                        cover("dial.err");
+                        check("c05.refused-dial-makes-no-attempt", world.calls.is_empty());
+                        check("c05.refused-dial-leaves-state", hooks::can_dial_now(&manager, &peers[i]) == dialable);
+                        // an idle peer with a known address and free capacity must be dialable
+                        check("c05.idle-peer-with-address-and-capacity-is-dialed", !(dialable && had_capacity));
+                    }
+                }
+                for c in world.calls.iter() {
+                    if let TransportCall::Open(id) = c { raw_open.push(Attempt { id: *id, peer: i, address: None, reported: 0 }); }
+                }
+                let _ = before;
+            }
+            1 => {
+                let i = nd.choose("peer", NPEERS as u64) as usize;
+                let dialable = hooks::can_dial_now(&manager, &peers[i]);
+                let had_capacity = match max_out { None => true, Some(m) => hooks::counted(&manager).1 < m };
+                let address = peer_address(i, peers[i]);
+                match hooks::dial_address_now(&mut manager, address.clone()) {
+                    None => check("c05.dial_address-never-suspends", false),
+                    Some(true) => {
+                        cover("dial_address.ok");
+                        let dialed = world.calls.iter().filter(|c| matches!(c, TransportCall::Dial(_))).count();
+                        if dialable { check("c05.accepted-dial_address-of-idle-peer-makes-an-attempt", dialed == 1); }
+                        else { check("c05.dial_address-in-progress-makes-no-second-attempt", dialed == 0); }
+                        check("c06.dial_address-respects-outbound-capacity", had_capacity);
+                    }
+                    Some(false) => {
+                        cover("dial_address.err");
+                        check("c05.refused-dial_address-makes-no-attempt", world.calls.is_empty());
+                        check("c05.refused-dial_address-leaves-state", hooks::can_dial_now(&manager, &peers[i]) == dialable);
+                    }
+                }
+                for c in world.calls.iter() {
+                    if let TransportCall::Dial(id) = c { dialing.push(Attempt { id: *id, peer: i, address: Some(address.clone()), reported: 0 }); }
+                }
+            }
+            2 => {
+                // a raw open attempt resolves
+                if raw_open.is_empty() { assume(false); }
+                let k = nd.choose("which_open", raw_open.len() as u64) as usize;
+                let attempt = raw_open.remove(k);
+                if nd.bool("open_succeeds") {
+                    cover("open.opened");
+                    let address = peer_address(attempt.peer, peers[attempt.peer]);
+                    let ok = hooks::on_connection_opened(&mut manager, attempt.id, address.clone());
+                    check("c05.opened-attempt-is-routable", ok);
+                    let negotiated = world.calls.iter().any(|c| *c == TransportCall::Negotiate(attempt.id));
+                    check("c05.opened-attempt-is-negotiated", negotiated);
+                    dialing.push(Attempt { id: attempt.id, peer: attempt.peer, address: Some(address), reported: 0 });
+                } else {
+                    cover("open.failed");
+                    match hooks::on_open_failure(&mut manager, attempt.id) {
+                        Ok(Some(p)) => check("c05.open-failure-names-the-dialed-peer", p == peers[attempt.peer]),
+                        Ok(None) => check("c05.single-transport-open-failure-is-final", false),
+                        Err(()) => check("c05.open-failure-is-routable", false),
+                    }
+                }
+            }
+            3 => {
+                // a dial / negotiation resolves
+                if dialing.is_empty() { assume(false); }
+                let k = nd.choose("which_dial", dialing.len() as u64) as usize;
+                let attempt = dialing.remove(k);
+                let address = attempt.address.clone().expect("dialing attempts have an address");
+                if nd.bool("dial_succeeds") {
+                    let endpoint = Endpoint::Dialer { address, connection_id: attempt.id };
+                    let peer_live = live.iter().filter(|c| c.peer == attempt.peer).count();
+                    let out_before = hooks::counted(&manager).1;
+                    match hooks::on_connection_established(&mut manager, peers[attempt.peer], &endpoint) {
+                        Ok(true) => {
+                            cover("dialed.accept");
+                            check("c06.accept-only-below-outbound-limit", match max_out { None => true, Some(m) => out_before < m });
+                            check("c06.accept-only-with-free-peer-slot", peer_live < 2);
+                            // glue of `TransportManager::next`: `Transport::accept` may fail, then the handler's
+                            // effects are rolled back by simulating a closed connection
+                            if nd.bool("accept_ok") {
+                                live.push(LiveConn { id: attempt.id, peer: attempt.peer, inbound: false });
+                            } else {
+                                cover("dialed.accept-rollback");
+                                let _ = hooks::on_connection_closed(&mut manager, peers[attempt.peer], attempt.id);
+                            }
+                        }
+                        Ok(false) => {
+                            cover("dialed.reject");
+                            let limit_hit = match max_out { None => false, Some(m) => out_before >= m };
+                            check("c06.reject-only-for-a-reason", limit_hit || peer_live >= 2);
+                            if limit_hit { cover("dialed.reject.limit"); concluded_without_report += 1; }
+                        }
+                        Err(()) => check("c05.established-dial-is-routable", false),
+                    }
+                } else {
+                    cover("dialed.failure");
+                    check("c05.dial-failure-is-routable-and-reported", hooks::on_dial_failure(&mut manager, attempt.id));
+                }
+            }
+            4 => {
+                // inbound connection from one of the peers
+                let i = nd.choose("peer", NPEERS as u64) as usize;
+                let in_before = hooks::counted(&manager).0;
+                let admitted = hooks::on_pending_incoming_connection(&mut manager);
+                check("c06.pending-inbound-admitted-iff-below-limit", admitted == match max_in { None => true, Some(m) => in_before < m });
+                if admitted {
+                    let id = hooks::next_connection_id(&mut manager);
+                    let address = Multiaddr::empty().with(Protocol::Ip4(Ipv4Addr::new(10, 0, 1, i as u8 + 1))).with(Protocol::Tcp(5000));
+                    let endpoint = Endpoint::Listener { address, connection_id: id };
+                    let peer_live = live.iter().filter(|c| c.peer == i).count();
+                    match hooks::on_connection_established(&mut manager, peers[i], &endpoint) {
+                        Ok(true) => {
+                            cover("inbound.accept");
+                            check("c06.inbound-accept-only-with-free-peer-slot", peer_live < 2);
+                            if nd.bool("accept_ok") {
+                                live.push(LiveConn { id, peer: i, inbound: true });
+                            } else {
+                                cover("inbound.accept-rollback");
+                                let _ = hooks::on_connection_closed(&mut manager, peers[i], id);
+                            }
+                        }
+                        Ok(false) => {
+                            cover("inbound.reject");
+                            // a third connection, or a connection racing an outstanding secondary dial
+                            let has_dial = dialing.iter().any(|a| a.peer == i) || raw_open.iter().any(|a| a.peer == i);
+                            check("c06.inbound-reject-only-for-a-reason", peer_live >= 2 || (peer_live == 1 && has_dial));
+                        }
+                        Err(()) => check("c05.inbound-established-is-handled", false),
+                    }
+                } else {
+                    cover("inbound.limit");
+                }
+            }
+            _ => {
+                if live.is_empty() { assume(false); }
+                let k = nd.choose("which_conn", live.len() as u64) as usize;
+                let conn = live.remove(k);
+                let last = !live.iter().any(|c| c.peer == conn.peer);
+                let reported = hooks::on_connection_closed(&mut manager, peers[conn.peer], conn.id);
+                cover("closed");
+                check("c07.closed-reported-iff-last-connection", reported == last);
+            }
+        }
+        // cancellations requested by the manager end the attempt silently (no further transport event)
+        for c in world.calls.iter() {
+            if let TransportCall::Cancel(id) = c { remove_attempt(&mut raw_open, *id); }
+        }
+
+        // ---- invariants after every step
+        for i in 0..NPEERS {
+            let st = hooks::peer_state(&manager, &peers[i]).expect("peer context exists");
+            let est = established(&st);
+            let mine: Vec<ConnectionId> = live.iter().filter(|c| c.peer == i).map(|c| c.id).collect();
+            check("c06.at-most-two-connections-per-peer", mine.len() <= 2);
+            check("c06.peer-state-tracks-exactly-the-live-connections", same_ids(&est, &mine));
+            let outstanding: Vec<ConnectionId> = raw_open.iter().chain(dialing.iter()).filter(|a| a.peer == i).map(|a| a.id).collect();
+            let state_dial = match &st { PeerState::Opening { connection_id, .. } => Some(*connection_id), other => dial_id(other) };
+            if let Some(d) = state_dial {
+                check("c05.no-wedge: dial id in the peer state has an outstanding attempt", outstanding.contains(&d));
+                check("c05.no-wedge: dial id in the peer state is routable", hooks::pending_peer(&manager, &d) == Some(peers[i]));
+            }
+            for d in outstanding.iter() {
+                check("c05.outstanding-attempt-is-routable", hooks::pending_peer(&manager, d) == Some(peers[i]));
+            }
+            if mine.is_empty() && outstanding.is_empty() {
+                check("c05.idle-peer-is-dialable", hooks::can_dial_now(&manager, &peers[i]));
+            }
+        }
+        let (cin, cout) = hooks::counted(&manager);
+        if let Some(m) = max_in { check("c06.inbound-limit-never-exceeded", cin <= m); check("c06.inbound-count-is-live-inbound", cin == live.iter().filter(|c| c.inbound).count()); }
+        if let Some(m) = max_out { check("c06.outbound-limit-never-exceeded", cout <= m); check("c06.outbound-count-is-live-outbound", cout == live.iter().filter(|c| !c.inbound).count()); }
+        check("c05.pending-map-has-no-orphans", hooks::pending_len(&manager) == raw_open.len() + dialing.len());
+    }
+    let _ = concluded_without_report;
+}
+
+// ------------------------------------------------------------------------------------------ C15 value / provider lookups
+use litep2p::protocol::libp2p::kademlia::query::get_providers::{GetProvidersConfig, GetProvidersContext};
+use litep2p::protocol::libp2p::kademlia::query::get_record::{GetRecordConfig, GetRecordContext};
+
+struct Net { ids: Vec<PeerId>, dists: Vec<u8>, peers: Vec<KademliaPeer>, local: PeerId }
+
+/// small network: pairwise distinct peers with ordered distinct distances to the target (symmetry reduction)
+fn small_network(nd: &mut Nondet, n: usize) -> Net {
+    let local = nd.peer_id("local");
+    let mut ids: Vec<PeerId> = Vec::new();
+    let mut dists: Vec<u8> = Vec::new();
+    let mut peers: Vec<KademliaPeer> = Vec::new();
+    let mut prev = 0u8;
+    for _ in 0..n {
+        let id = nd.peer_id("peer");
+        for other in ids.iter() { assume(*other != id); }
+        let d = nd.u8("dist");
+        assume(d > prev);
+        prev = d;
+        ids.push(id);
+        dists.push(d);
+        peers.push(KademliaPeer::new_verif(id, key_bytes(d), ConnectionType::NotConnected));
+    }
+    if !nd.bool("local_in_network") { for id in ids.iter() { assume(*id != local); } }
+    Net { ids, dists, peers, local }
+}
+
+/// C15 (value lookup): GetRecordContext against a ledger.
+pub fn c15_get_record(nd: &mut Nondet) {
+    const N: usize = 3;
+    let net = small_network(nd, N);
+    // symbolic (not forked) configuration: the solver splits only where the code compares against them
+    let replication = nd.usize("replication");
+    assume(replication >= 1 && replication <= 2);
+    let parallelism = nd.usize("parallelism");
+    assume(parallelism >= 1 && parallelism <= 2);
+    let quorum = match nd.choose("quorum", 3) { 0 => Quorum::One, 1 => Quorum::All, _ => Quorum::N(NonZeroUsize::new(2).unwrap()) };
+    let needed = match quorum { Quorum::One => 1, Quorum::All => replication, Quorum::N(k) => k.get() };
+    let local_record = nd.bool("local_record");
+    let rkey = RecordKey::from(vec![7u8]);
+    let config = GetRecordConfig {
+        local_peer_id: net.local, known_records: 0, quorum, replication_factor: replication, parallelism_factor: parallelism,
+        query: QueryId(1), target: Key::from_bytes_verif(key_bytes(0), rkey.clone()),
+    };
+    let mut seeds = VecDeque::new();
+    for i in 0..N { if nd.bool("seed") && net.ids[i] != net.local { seeds.push_back(net.peers[i].clone()); } }
+    let mut ctx = GetRecordContext::new(config, seeds, local_record);
+    let now = Instant::now();
+
+    let mut contacted: Vec<PeerId> = Vec::new();
+    let mut answered: Vec<PeerId> = Vec::new();
+    let mut records_given = 0usize;      // unexpired records handed over by peers
+    let mut records_reported = 0usize;   // partial results emitted
+    let mut reported_from: Vec<PeerId> = Vec::new();
+    let steps = param("steps", 4);
+    for _ in 0..steps {
+        if nd.bool("poll") {
+            match ctx.next_action() {
+                Some(QueryAction::SendMessage { peer, .. }) => {
+                    cover("c15r.send");
+                    check("c15r.never-contacts-local", peer != net.local);
+                    check("c15r.never-contacts-twice", !contacted.contains(&peer));
+                    contacted.push(peer);
+                    let in_flight = contacted.iter().filter(|p| !answered.contains(p)).count();
+                    check("c15r.in-flight-within-parallelism", in_flight <= parallelism);
+                    let found = records_given + if local_record { 1 } else { 0 };
+                    check("c15r.no-request-after-quorum-met", found < needed);
+                }
+                Some(QueryAction::GetRecordPartialResult { record, .. }) => {
+                    cover("c15r.partial");
+                    records_reported += 1;
+                    check("c15r.record-reported-at-most-once-per-reply", !reported_from.contains(&record.peer));
+                    check("c15r.record-comes-from-a-peer-that-answered", answered.contains(&record.peer));
+                    reported_from.push(record.peer);
+                }
+                Some(QueryAction::QuerySucceeded { .. }) => {
+                    cover("c15r.succeeded");
+                    check("c15r.every-record-reported-before-success", records_reported == records_given);
+                    check("c15r.success-needs-a-record", records_given > 0 || local_record);
+                    return;
+                }
+                Some(QueryAction::QueryFailed { .. }) => {
+                    cover("c15r.failed");
+                    check("c15r.failure-only-without-records", records_given == 0 && !local_record);
+                    return;
+                }
+                Some(_) => check("c15r.unexpected-action", false),
+                None => {
+                    cover("c15r.wait");
+                    check("c15r.waits-only-on-outstanding-requests", contacted.iter().any(|p| !answered.contains(p)));
+                }
+            }
+        } else {
+            let outstanding: Vec<PeerId> = contacted.iter().copied().filter(|p| !answered.contains(p)).collect();
+            if outstanding.is_empty() { assume(false); }
+            let who = outstanding[nd.choose("who", outstanding.len() as u64) as usize];
+            answered.push(who);
+            if nd.bool("replies") {
+                let record = match nd.choose("record", 3) {
+                    0 => None,
+                    1 => { let mut r = Record::new(rkey.clone(), vec![1u8]); r.expires = Some(now - Duration::from_secs(10)); Some(r) }
+                    _ => { records_given += 1; Some(Record::new(rkey.clone(), vec![2u8])) }
+                };
+                let mut advertised = Vec::new();
+                for i in 0..N { if nd.bool("advertise") { advertised.push(net.peers[i].clone()); } }
+                ctx.register_response(who, record, advertised);
+                cover("c15r.response");
+            } else {
+                ctx.register_response_failure(who);
+                cover("c15r.peer-failure");
+            }
+        }
+    }
+}
+
+/// C15 (provider lookup): GetProvidersContext against a ledger.
+pub fn c15_get_providers(nd: &mut Nondet) {
+    const N: usize = 3;
+    let net = small_network(nd, N);
+    let parallelism = nd.usize("parallelism");
+    assume(parallelism >= 1 && parallelism <= 2);
+    let rkey = RecordKey::from(vec![7u8]);
+    let config = GetProvidersConfig {
+        local_peer_id: net.local, parallelism_factor: parallelism, query: QueryId(2),
+        target: Key::from_bytes_verif(key_bytes(0), rkey.clone()), known_providers: Vec::new(),
+    };
+    let mut seeds = VecDeque::new();
+    for i in 0..N { if nd.bool("seed") && net.ids[i] != net.local { seeds.push_back(net.peers[i].clone()); } }
+    let mut ctx = GetProvidersContext::new(config, seeds);
+    // providers come from a separate 2-peer universe
+    let prov = [nd.peer_id_fixed(201), nd.peer_id_fixed(202)];
+    let mut given: Vec<PeerId> = Vec::new();
+
+    let mut contacted: Vec<PeerId> = Vec::new();
+    let mut answered: Vec<PeerId> = Vec::new();
+    let steps = param("steps", 4);
+    for _ in 0..steps {
+        if nd.bool("poll") {
+            match ctx.next_action() {
+                Some(QueryAction::SendMessage { peer, .. }) => {
+                    cover("c15p.send");
+                    check("c15p.never-contacts-local", peer != net.local);
+                    check("c15p.never-contacts-twice", !contacted.contains(&peer));
+                    contacted.push(peer);
+                    let in_flight = contacted.iter().filter(|p| !answered.contains(p)).count();
+                    check("c15p.in-flight-within-parallelism", in_flight <= parallelism);
+                }
+                Some(QueryAction::QuerySucceeded { .. }) => {
+                    cover("c15p.succeeded");
+                    check("c15p.success-needs-a-provider", !given.is_empty());
+                    check("c15p.terminal-only-when-nothing-outstanding", contacted.iter().all(|p| answered.contains(p)));
+                    let result = ctx.found_providers();
+                    // each provider exactly once
+                    let mut seen: Vec<PeerId> = Vec::new();
+                    for p in result.iter() { check("c15p.provider-reported-once", !seen.contains(&p.peer)); seen.push(p.peer); }
+                    for g in given.iter() { check("c15p.every-returned-provider-is-reported", seen.contains(g)); }
+                    for r in seen.iter() { check("c15p.only-returned-providers-are-reported", given.contains(r)); }
+                    return;
+                }
+                Some(QueryAction::QueryFailed { .. }) => {
+                    cover("c15p.failed");
+                    check("c15p.failure-only-without-providers", given.is_empty());
+                    check("c15p.terminal-only-when-nothing-outstanding", contacted.iter().all(|p| answered.contains(p)));
+                    return;
+                }
+                Some(_) => check("c15p.unexpected-action", false),
+                None => {
+                    cover("c15p.wait");
+                    check("c15p.waits-only-on-outstanding-requests", contacted.iter().any(|p| !answered.contains(p)));
+                }
+            }
+        } else {
+            let outstanding: Vec<PeerId> = contacted.iter().copied().filter(|p| !answered.contains(p)).collect();
+            if outstanding.is_empty() { assume(false); }
+            let who = outstanding[nd.choose("who", outstanding.len() as u64) as usize];
+            answered.push(who);
+            if nd.bool("replies") {
+                let mut providers = Vec::new();
+                for k in 0..2 {
+                    if nd.bool("provider") {
+                        providers.push(KademliaPeer::new_verif(prov[k], key_bytes(100 + k as u8), ConnectionType::NotConnected));
+                        if !given.contains(&prov[k]) { given.push(prov[k]); }
+                    }
+                }
+                let mut advertised = Vec::new();
+                for i in 0..N { if nd.bool("advertise") { advertised.push(net.peers[i].clone()); } }
+                ctx.register_response(who, providers, advertised);
+                cover("c15p.response");
+            } else {
+                ctx.register_response_failure(who);
+                cover("c15p.peer-failure");
             }
         }
     }
